@@ -123,7 +123,7 @@ package server
 //@ requires newState == PauseStateRunning || newState == PauseStateStopped
 //@ assigns p.State, p.StopMessage, closed(p.pauseChannel)
 //@ ensures[C07,C08] state_set: p.State == newState && p.StopMessage == message
-//@ ensures[C07] releases_waiters: old(p.State) == PauseStatePaused && newState != PauseStatePaused ==> closed(p.pauseChannel)
+//@ ensures[C07,C08] releases_waiters: old(p.State) == PauseStatePaused && newState != PauseStatePaused ==> closed(p.pauseChannel)
 //@ ensures[C07] only_then: !(old(p.State) == PauseStatePaused && newState != PauseStatePaused) ==> closed(p.pauseChannel) == old(closed(p.pauseChannel))
 //@ ensures[C07,C18] lock_free: !held(p.lock)
 
@@ -203,7 +203,7 @@ package server
 //@ func (*server.Target).StartRequest
 //@ requires req != nil
 //@ assigns mapof(t.inflight)
-//@ ensures[C03] refuses_while_draining: old(t.state) == TargetStateDraining ==> err == ErrorDraining && result0 == nil && forall k `*net/http.Request` :: haskey(t.inflight, k) == old(haskey(t.inflight, k))
+//@ ensures[C03,C02] refuses_while_draining: old(t.state) == TargetStateDraining ==> err == ErrorDraining && result0 == nil && forall k `*net/http.Request` :: haskey(t.inflight, k) == old(haskey(t.inflight, k))
 //@ ensures[C03,C15] registers: old(t.state) != TargetStateDraining ==> err == nil && result0 != nil && fresh(result0) && haskey(t.inflight, result0) && origin(result0) == origin(req) && (ctxWF(req) ==> ctxWF(result0))
 //@ ensures[C03] keeps_others: forall k `*net/http.Request` :: k != result0 ==> haskey(t.inflight, k) == old(haskey(t.inflight, k))
 //@ ensures[C18] lock_free: !held(t.inflightLock)
@@ -514,7 +514,7 @@ package server
 //@ func (*server.Service).UpdateLoadBalancer
 //@ requires lb != nil && lbReady(lb)
 //@ assigns s.active, s.rollout
-//@ ensures[C02,C10] swaps_slot: (slot == TargetSlotRollout ==> s.rollout == lb && result == old(s.rollout) && s.active == old(s.active)) && (slot != TargetSlotRollout ==> s.active == lb && result == old(s.active) && s.rollout == old(s.rollout))
+//@ ensures[C02,C10,C01,C03] swaps_slot: (slot == TargetSlotRollout ==> s.rollout == lb && result == old(s.rollout) && s.active == old(s.active)) && (slot != TargetSlotRollout ==> s.active == lb && result == old(s.active) && s.rollout == old(s.rollout))
 //@ ensures[C03] replaced_was_serving: result != nil ==> lbReady(result)
 //@ ensures[C18] lock_free: !held(s.serviceLock)
 //@ emits UpdateLB(s, lb, slot, result)
@@ -529,11 +529,11 @@ package server
 //@ attr blocks
 //@ assigns `os.File`.content
 //@ may_emit ListServices, CreateTemp, JsonEncode, FileClose, FsRename, FileRemove, MarshalService, FsTruncate
-//@ ensures[C12] never_truncates_the_live_file: none(FsTruncate)
-//@ ensures[C12] only_a_rename_replaces_the_state_file: all(FsRename, $1 == r.statePath) && all(CreateTemp, $1 == dirOf(r.statePath))
-//@ ensures[C12] complete_before_it_replaces: first(JsonEncode(_, _), FileClose(_)) && first(FileClose(_), FsRename(_, _, _)) && first(ListServices(_), JsonEncode(_, _)) && count(FsRename(_, _, _)) <= 1
-//@ ensures[C12] success_means_replaced: result == nil ==> count(FsRename(_, _, _)) == 1 && emitted(FsRename(_, _, true)) && count(ListServices(_)) == 1
-//@ ensures[C12] failure_leaves_the_old_file: result != nil ==> none(FsRename(_, _, true))
+//@ ensures[C12,C11] never_truncates_the_live_file: none(FsTruncate)
+//@ ensures[C12,C11] only_a_rename_replaces_the_state_file: all(FsRename, $1 == r.statePath) && all(CreateTemp, $1 == dirOf(r.statePath))
+//@ ensures[C12,C11] complete_before_it_replaces: first(JsonEncode(_, _), FileClose(_)) && first(FileClose(_), FsRename(_, _, _)) && first(ListServices(_), JsonEncode(_, _)) && count(FsRename(_, _, _)) <= 1
+//@ ensures[C12,C11] success_means_replaced: result == nil ==> count(FsRename(_, _, _)) == 1 && emitted(FsRename(_, _, true)) && count(ListServices(_)) == 1
+//@ ensures[C12,C11] failure_leaves_the_old_file: result != nil ==> none(FsRename(_, _, true))
 //@ ensures[C12] snapshots_are_serialized: first(Lock(r, lockid("server.Router.snapshotLock")), ListServices(_)) && !held(r.snapshotLock) && (result == nil ==> first(FsRename(_, _, _), Unlock(r, lockid("server.Router.snapshotLock"))))
 //@ ensures[C17] no_timed_wait: now == old(now)
 //@ emits Snapshot(r)
@@ -560,9 +560,9 @@ package server
 //@ attr blocks
 //@ assigns *
 //@ ensures[C01,C06,C02] waits_for_every_new_target_first: all(UpdateLB, before(WaitHealthy($1, deployTimeout), UpdateLB($0, $1, targetSlot, $3)) && $0 == ref(service))
-//@ ensures[C01,C06] unhealthy_targets_never_installed: emitted(WaitHealthy(_, _)) && none(UpdateLB) ==> err != nil && none(Install) && all(NewLB, emitted(Dispose($0)))
+//@ ensures[C01,C06,C02] unhealthy_targets_never_installed: emitted(WaitHealthy(_, _)) && none(UpdateLB) ==> err != nil && none(Install) && all(NewLB, emitted(Dispose($0)))
 //@ ensures[C01,C02] swap_then_install: first(UpdateLB(_, _, _, _), Install(_, _)) && count(Install(_, _)) <= 1 && count(UpdateLB(_, _, _, _)) <= 1
-//@ ensures[C02,C03] old_targets_drained_after_the_swap: all(DrainAll, before(Install(_, _), DrainAll($0, drainTimeout)) && emitted(UpdateLB(_, _, _, $0)) && $1 == drainTimeout)
+//@ ensures[C02,C03,C17] old_targets_drained_after_the_swap: all(DrainAll, before(Install(_, _), DrainAll($0, drainTimeout)) && emitted(UpdateLB(_, _, _, $0)) && $1 == drainTimeout)
 //@ ensures[C03,C17] replaced_targets_disposed_after_draining: err == nil ==> all(Dispose, before(DrainAll($0, _), Dispose($0)))
 //@ ensures[C06,C17] rejected_targets_stop_being_probed: err != nil ==> all(NewLB, emitted(Dispose($0)))
 //@ ensures[C06] malformed_targets_create_nothing: none(NewLB) ==> err != nil && none(UpdateLB) && none(Install) && none(NewHealthCheck) && now == old(now)
@@ -608,7 +608,7 @@ package server
 //@ func (*server.Service).CopyWithOptions
 //@ assigns nothing
 //@ may_emit LoadCert, ParseTemplates
-//@ ensures[C06,C07,C08,C10] shares_runtime_state: err == nil ==> result0 != nil && fresh(result0) && result0 != s && result0.name == s.name && result0.active == s.active && result0.rollout == s.rollout && result0.pauseController == s.pauseController && result0.rolloutController == s.rolloutController && result0.targetOptions == targetOptions
+//@ ensures[C06,C07,C08,C10,C02,C11] shares_runtime_state: err == nil ==> result0 != nil && fresh(result0) && result0 != s && result0.name == s.name && result0.active == s.active && result0.rollout == s.rollout && result0.pauseController == s.pauseController && result0.rolloutController == s.rolloutController && result0.targetOptions == targetOptions
 //@ ensures[C16] cert_manager_matches_tls: err == nil ==> (!isnil(result0.certManager)) == result0.options.TLSEnabled && !isnil(result0.middleware)
 
 //@ func (*server.Service).Dispose
